@@ -158,7 +158,7 @@ func indexOf(s, sub string) int {
 func init() {
 	Register(&Prop{
 		ID:    "C13",
-		Rule:  "one execution = one fully populated value (every leaf ∈ {passing, failing t1, failing t2, failing both}, never zero or blank; slices of 1–2 elements; pointers set; slices of pointers also with every element being the same pointer) of a core skeleton with ≤k focus units ranging over configuration × value (and, with any one unit deviating, every case again under an installed process-wide formatter; and any one unit over configuration × PostTransforms {none, one that changes the value, one that changes the value followed by a plain one, one returning a *ZogIssue with / without a path of its own} × value), run twice on the real code: Validate in place, and Parse of the value rendered as the map it would be decoded from into a fresh destination, under every field visit order; non-trivial = deviating case; distinct = distinct (skeleton, issue set)",
+		Rule:  "one execution = one fully populated value (every leaf ∈ {passing, failing t1, failing t2, failing both}, never zero or blank; slices of 1–2 elements; pointers set; slices of pointers also with every element being the same pointer) of a core skeleton with ≤k focus units ranging over configuration × value (and, with any one unit deviating, every case again under an installed process-wide formatter; and any one unit over configuration × PostTransforms {none, one that changes the value, one that changes the value followed by a plain one, one returning a *ZogIssue with / without a path of its own, one returning a *ZogIssue followed by one that changes the value} × value), run twice on the real code: Validate in place, and Parse of the value rendered as the map it would be decoded from into a fresh destination, under every field visit order; non-trivial = deviating case; distinct = distinct (skeleton, issue set)",
 		Floor: 50,
 		Bound: func(tier string) string {
 			k, e := coreK(tier)
